@@ -58,7 +58,7 @@ class Spec(object):
 
 def gen_spec(rng, nstates=None, max_depth=8, nsignals=None, shape=None, p_init=0.45,
              p_react=0.5, clauses='mixed', fx_rate=0.0, fx_ops=('post_fifo', 'post_lifo'),
-             decline_bias=0.2, deep=False, tricky_names=0.3, p_vars=0.4, p_query=0.2, name_style=None):
+             decline_bias=0.2, deep=False, tricky_names=0.3, p_vars=0.4, p_query=0.2, name_style=None, p_poke=0.15, p_swallow=0.0):
   """draw a chart spec.  All randomness comes from rng."""
   if nstates is None:
     nstates = rng.randrange(2, 15)
@@ -112,7 +112,7 @@ def gen_spec(rng, nstates=None, max_depth=8, nsignals=None, shape=None, p_init=0
       op = rng.choice(ops)
       fx_id[0] += 1
       f = {'op': op, 'id': fx_id[0], 'max': rng.choice([1, 1, 2, 3])}
-      if op in ('post_fifo', 'post_lifo'):
+      if op in ('post_fifo', 'post_lifo', 'defer_new'):
         f['sig'] = rng.choice(signals)
       elif op == 'scribble':
         f['text'] = 'note%d' % fx_id[0]
@@ -128,6 +128,10 @@ def gen_spec(rng, nstates=None, max_depth=8, nsignals=None, shape=None, p_init=0
     if vars_ and rng.random() < 0.5:
       fx_id[0] += 1
       out.append({'op': 'setvar', 'var': rng.choice(vars_), 'value': rng.random() < 0.6, 'id': fx_id[0], 'max': 1000})
+    if rng.random() < p_poke:
+      # an action that sends an event to another chart (an orthogonal component), which makes a transition of its own
+      fx_id[0] += 1
+      out.append({'op': 'poke', 'id': fx_id[0], 'max': 1000})
     if hook and rng.random() < p_query:
       fx_id[0] += 1
       out.append({'op': 'query', 'q': rng.choice(['is_in', 'child', 'current_state']), 'arg': rng.choice(names + ['top']),
@@ -150,12 +154,16 @@ def gen_spec(rng, nstates=None, max_depth=8, nsignals=None, shape=None, p_init=0
       s['init_clause'] = True if s['init'] else rng.random() < 0.7
     for w in ('entry', 'exit', 'init'):
       if s[w + '_clause'] and (w != 'init' or s['init']):
-        f = draw_fx(inner=True)
+        f = draw_fx(inner=True) + [x for x in plain_fx(False) if x['op'] == 'poke']
         if f:
           s['fx'][w] = f
     for sig in signals:
       if rng.random() < p_react:
         r = rng.random()
+        if p_swallow and rng.random() < p_swallow:
+          # the state answers the event by ignoring it explicitly (returns IGNORED): it stops there
+          s['react'][sig] = {'kind': 'swallow'}
+          continue
         if r < decline_bias:
           s['react'][sig] = {'kind': 'decline'}
         elif r < decline_bias + 0.25:
@@ -282,6 +290,9 @@ def build_closure(spec, rec, spied=True, effects=None, malform=None):
         elif k == 'decline':
           rec('decline', name, sn, None)
           return rs.UNHANDLED
+        elif k == 'swallow':
+          rec('swallow', name, sn, None)
+          return rs.IGNORED
         else:
           rec('trans', name, sn, r['target'])
           b._fx(chart, e, r.get('fx'))
@@ -353,6 +364,10 @@ def _callbacks(b, chart_ns):
         def cb(chart, e):
           b.rec('decline', name, e.signal_name, None)
           return rs.UNHANDLED
+      elif k == 'swallow':
+        def cb(chart, e):
+          b.rec('swallow', name, e.signal_name, None)
+          return rs.IGNORED
       else:
         def cb(chart, e):
           b.rec('trans', name, e.signal_name, r['target'])
